@@ -35,6 +35,7 @@ def _absent_branches(loop, member):
 
 
 def check(prog, run):
+    check_member_type(prog, run, "F1")
     check_unknown_variable(prog, run, "U1")
     check_non_finite_guard(prog, run, "I5")
     cv = prog.get_func(CV, "coerce_value")
@@ -623,3 +624,43 @@ def check_unknown_variable(prog, run, rule_id):
                            "subscripts the mapping" if subs else "does not always raise UnknownVariable", sorted(kinds)))
         if present and not subs:
             run.report(r, "%s:_extract_variable:value-not-read" % VFA, f.where(), "a provided variable's value is never read from the mapping")
+
+
+def check_member_type(prog, run, rule_id):
+    """A member of an input object is converted against the member's own type."""
+    r = run.rule(rule_id, "input-object coercion on both routes (_extract_input_object, _coerce_input_object): inside the loop over the "
+                          "object type's fields every conversion call receives the field's own `.type` and none is handed the enclosing "
+                          "object type - a variable placed at a member is checked (null for a non-null member, ...) against that member's "
+                          "type, not against the type of the object it sits in", 2)
+    for mod, fname in (("py_gql.utilities.value_from_ast", "_extract_input_object"), ("py_gql.utilities.coerce_value", "_coerce_input_object")):
+        f = prog.get_func(mod, fname)
+        run.looked_at(f)
+        tparams = [a.arg for a in f.node.args.args if a.annotation is not None and "InputObjectType" in ast.unparse(a.annotation)] or \
+                  [a.arg for a in f.node.args.args if "type" in a.arg]
+        if not tparams:
+            raise AnalysisError("C07.%s: the input-object type parameter of %s was not found" % (rule_id, fname))
+        tp = tparams[0]
+        loops = [n for n in own_nodes(f.node) if isinstance(n, ast.For) and any(
+            isinstance(x, ast.Attribute) and x.attr in ("fields", "field_map") and isinstance(x.value, ast.Name) and x.value.id == tp for x in ast.walk(n.iter))]
+        if not loops:
+            raise AnalysisError("C07.%s: the loop over the fields of the object type in %s was not found" % (rule_id, fname))
+        fvars = {x.id for lp in loops for x in ast.walk(lp.target) if isinstance(x, ast.Name)}
+        own_type, enclosing = 0, []
+        for lp in loops:
+            for c in ast.walk(lp):
+                if not isinstance(c, ast.Call):
+                    continue
+                args = list(c.args) + [k.value for k in c.keywords]
+                if any(isinstance(a, ast.Attribute) and a.attr == "type" and isinstance(a.value, ast.Name) and a.value.id in fvars for a in args):
+                    own_type += 1
+                if any(isinstance(a, ast.Name) and a.id == tp for a in args) and not (isinstance(c.func, ast.Name) and c.func.id in ("isinstance", "str", "repr")):
+                    callees = prog.resolve_call(f, c)
+                    if any(k.module.name.startswith("py_gql.utilities") for k in callees):
+                        enclosing.append(c)
+        r.instance("%s: %d member conversions with the field's type, %d with the enclosing type" % (fname, own_type, len(enclosing)))
+        if not own_type:
+            raise AnalysisError("C07.%s: no conversion with `<field>.type` found in %s" % (rule_id, fname))
+        for c in enclosing:
+            run.report(r, "%s:%s:member-converted-against-enclosing-type(%s)" % (mod, fname, ast.unparse(c.func)), f.where(c),
+                       "`%s` converts a member of the object against `%s`, the object's own type: the member's declared type (its "
+                       "non-null wrapper in particular) is not applied to the value" % (" ".join(ast.unparse(c).split())[:80], tp))
